@@ -6,7 +6,7 @@ operation steps it with the model's own function).  On top of it
 
 * every queued segment carries `buf : Option Nat`, the identity of the pool buffer that backs
   `seg.data` (`none` = `seg.data == nil`, i.e. after `recycleSegment`): the four queues are kept a
-  second time as lists of `SegO = (Seg, buf)`; `Sync` (Lemmas/KcpOwn.lean) says that forgetting the
+  second time as lists of `SegO = (Seg, buf)`; `Sync` (Lemmas/KcpOwnSync.lean) says that forgetting the
   ids gives exactly the queues of `k` — the instrumented model is the tied model plus ghost fields;
 * a ghost state `Ghost`: the next fresh buffer id, the event log (`Pool.Ev`: get / put / use, in
   program order) and the buffers that were acquired and then dropped without `Put` (only next to a
